@@ -343,6 +343,9 @@ func (check typecheck) arrayLitExpr(child []*node, typ *itype) error {
 			if err := check.index(c.child[0], length); err != nil {
 				return c.cfgErrorf("index %s must be integer constant", c.child[0].typ.id())
 			}
+			if !c.child[0].rval.IsValid() {
+				return c.cfgErrorf("index %s must be integer constant", c.child[0].typ.id())
+			}
 			n = c.child[1]
 			index = int(vInt(c.child[0].rval))
 		}
